@@ -15,7 +15,7 @@ def run(res, tier, rng):
     from ural.lru import canonicalized_lru_stems, normalized_lru_stems, fingerprinted_lru_stems, lru_stems
     from ural import canonicalize_url
 
-    urls = ["https://bc.marfeelcache.com/amp/www.lemonde.fr/article/1.html", "bc.marfeel.com/m.lefigaro.fr/actu", "https://www-x-com.cdn.ampproject.org/c/s/www.x.com/a", "fr-FR.facebook.com/a", "https://WWW.Lemonde.FR:8080/x", " http://m.x.com \n", "http://r.com/?url=http%3A%2F%2Fwww.t.co.uk%2Fp", "http://xn--caf-dma.fr/", "amp-x.com"]
+    urls = ["http:/www.lemonde.fr/a", "https:/m.x.com", "https://bc.marfeelcache.com/amp/www.lemonde.fr/article/1.html", "bc.marfeel.com/m.lefigaro.fr/actu", "https://www-x-com.cdn.ampproject.org/c/s/www.x.com/a", "fr-FR.facebook.com/a", "https://WWW.Lemonde.FR:8080/x", " http://m.x.com \n", "http://r.com/?url=http%3A%2F%2Fwww.t.co.uk%2Fp", "http://xn--caf-dma.fr/", "amp-x.com"]
     hosts = ["fr-FR.facebook.com", "www.lemonde.fr", "M.X.COM", "fr.wikipedia.org", "xn--caf-dma.fr", "a.b.co.uk", "amp-x.com", "en-gb.example.co.uk", "us.x.com", "x.com", " www.x.com ", "\x00 www.lemonde.fr", " \x7fm.x.com\x00 ", "\x1b\tfr.www.x.com"]
     for _ in range(2500 if tier == "quick" else 40000):
         u = gen_url(rng)
